@@ -44,6 +44,7 @@ from c14_classes import Gone, GoneNA, Node, NodeNA, NodeNASub, PlainGone  # noqa
 
 Z64 = b'\0' * 8
 TMPBASE = [None]                          # scratch directory of the run (ck.tmp)
+LEGACY_LOAD = [True]                      # load Python-2-format records in this process (see legacy_canary)
 DBNAMES = ['d0', 'd1', 'dx']            # d0, d1: members of the multi-database; dx: a stranger
 KINDS = {'N': Node, 'A': NodeNA, 'B': NodeNASub, 'M': PersistentMapping, 'L': PersistentList, 'G': Gone, 'H': GoneNA}
 CLSID = {('persistent.mapping', 'PersistentMapping'): 1, ('persistent.list', 'PersistentList'): 2,
@@ -1372,16 +1373,9 @@ class Session:
                             db.close()
                     del c, dbs
                     return dup, out, self.viol[n0:]
-                # in a child process: an object cache that got two objects for one oid can take the
-                # interpreter down
-                kind, res = in_child(legacy_walk)
-                if kind != 'ok':
-                    self.violation('C14:ascii-oid', 'loading the graph from records written the Python 2 way (all-ASCII '
-                                   'oids arrive as str) %s' % ('killed the interpreter with signal %d' % res
-                                                               if kind == 'signal' else 'raised %s' % res))
-                    return
-                dup, out, viol = res
-                self.viol += viol
+                if not LEGACY_LOAD[0]:
+                    return            # the canary of this run (see legacy_canary) failed: reported there
+                dup, out, _ = legacy_walk()
                 self.emit('lenv %s -' % ','.join(map(str, range(self.ndb))), 'ok')
                 self.emit('lwalk ' + ','.join('%d:%s' % (d, o.hex()) for d, o in keys),
                           canon_walk('dup=%d | %s' % (dup, ' | '.join(out))))
@@ -1427,6 +1421,28 @@ def in_child(fn):
         return pickle.loads(data)
     except Exception:
         return ('exc', 'child exited with status %d without a result' % status)
+
+
+CANARY = dict(ndb=1, xrefs=[1, 1], legacy=True, legacy_weak=False, fresh_each=False, reset=False, hist=False,
+              oids=[['6162636465666768', '3030303030303031', '4142434445464748', '2e2e2e2e2e2e2e2e'], [], []], ops=[
+    ['new', 'a', 'N'], ['new', 'b', 'N'], ['new', 's', 'N'], ['new', 'k', 'A'],
+    ['set', 'a', 'f', ['l', [['r', 's'], ['r', 'k'], ['w', 's']]]], ['set', 'b', 'f', ['t', [['r', 's'], ['r', 'k'], ['r', 'a']]]],
+    ['set', 's', 'f', ['r', 'a']], ['root', 0, 'a', 'a'], ['root', 0, 'b', 'b'], ['commit']])
+
+
+def legacy_canary():
+    """Before anything else, in a forked child: load a graph with shared objects from records written the
+    Python 2 way (all-ASCII oids arrive as str).  A reader that ends up with two objects for one oid can
+    corrupt the C object cache and take the interpreter down, at once or when the garbage is collected;
+    then that is the observation, and the phase is not run in this process.
+    -> (signature, what) or None"""
+    kind, res = in_child(lambda: run_case(CANARY).viol[:3])
+    if kind == 'signal':
+        return ('C14:ascii-oid', 'loading a graph with shared objects from records written the Python 2 way '
+                '(all-ASCII oids arrive as str) killed the interpreter with signal %d' % res)
+    if kind != 'ok':
+        return ('C14:ascii-oid', 'loading a graph from records written the Python 2 way raised %s' % res)
+    return tuple(res[0]) if res else None
 
 
 def decode_getrefs(data):
@@ -1946,8 +1962,9 @@ def light(case, s, mo):
 
 def work(arg):
     """run a chunk of cases on the real code and on the model (one driver process per chunk)"""
-    tmp, cases = arg
+    tmp, legacy_load, cases = arg
     TMPBASE[0] = tmp
+    LEGACY_LOAD[0] = legacy_load
     sessions = [Ran(run_case(case)) for case in cases]
     alllines = [l for s in sessions for l, _ in s.lines]
     model = run_driver('Refs', alllines) if alllines else []
@@ -1976,13 +1993,18 @@ def main(argv=None):
         ncases = 0
     for _ in range(ncases):
         cases.append(gen_case(ck.rng, ck.thorough))
+    TMPBASE[0] = ck.tmp
+    bad = legacy_canary()
+    if bad:
+        LEGACY_LOAD[0] = False
+        ck.violation(bad[0], bad[1], CANARY)
     if ck.thorough and len(cases) > 2000:
         import multiprocessing
         chunks = [cases[i:i + 500] for i in range(0, len(cases), 500)]
         with multiprocessing.Pool(min(16, os.cpu_count() or 4)) as pool:
-            results = [r for chunk in pool.map(work, [(ck.tmp, c) for c in chunks]) for r in chunk]
+            results = [r for chunk in pool.map(work, [(ck.tmp, LEGACY_LOAD[0], c) for c in chunks]) for r in chunk]
     else:
-        results = work((ck.tmp, cases))
+        results = work((ck.tmp, LEGACY_LOAD[0], cases))
     TMPBASE[0] = ck.tmp
     shrunk = set()
     for case, res in zip(cases, results):
